@@ -128,6 +128,7 @@ fn render_scaled(d: &DecT, scale: i64) -> String {
         "bad_word" => "abc".to_string(),
         "bad_exp" => format!("{}e0", p),
         "bad_space" => format!(" {}", p),
+        "bad_tspace" => format!("{} ", p),
         other => format!("?{}?{}", other, p),
     };
     if scale == SCALE {
